@@ -480,6 +480,20 @@ def _loop_stream(loop):
     return [x for x, _ in _stream(loop[3]) if x[0] in ("text", "out")]
 
 
+def _plain(e):
+    """the value an output prints, without formatting that does not change the text of an identifier / an integer: `x | int`,
+    `x | string`, `x | trim`, `"%d" | format(x)`, `"{}".format(x)`"""
+    while True:
+        if e[0] == "filter" and e[1] in ("int", "string", "trim") and not e[3] and not e[4]:
+            e = e[2]
+        elif e[0] == "filter" and e[1] == "format" and e[2][0] == "const" and e[2][1] in ("%d", "%s", "%i") and len(e[3]) == 1 and not e[4]:
+            e = e[3][0]
+        elif e[0] == "call" and e[1][0] == "attr" and e[1][2] == "format" and e[1][1][0] == "const" and e[1][1][1] in ("{}", "{0}", "{:d}", "{0:d}") and len(e[2]) == 1 and not e[3]:
+            e = e[2][0]
+        else:
+            return e
+
+
 def _def_loops(ctx, rel, prefix_re, seq, suffix_of, what, expected):
     """loops `for v in <seq>` whose body writes `<prefix><suffix(v)> <sep> loop.index0` (through {% set %} names or a macro alike)."""
     items = _r4_items(ctx, rel, {})
@@ -496,6 +510,7 @@ def _def_loops(ctx, rel, prefix_re, seq, suffix_of, what, expected):
         return
     it, body = hits[0]
     outs = [x for x in body if x[0] == "out"]
+    outs = [("out", _plain(x[1])) + tuple(x[2:]) for x in outs]
     ok = it[2] == seq and it[7] is None and len(outs) == 2 and outs[0][1] == suffix_of(it[1]) and outs[1][1] == IDX0
     if not ok:
         # VIOLATION only for a pairing that is understood and wrong: the right sequence filtered / re-ordered, another attribute of
@@ -1654,3 +1669,7 @@ def _summary_by_parameters(alias_iter="members"):
 
 BENIGN += [{"name": "summary-helper-takes-the-sequences", "edits": _summary_by_parameters()}]
 MUTANTS += [{"name": "summary-helper-alias-from-sorted-members", "edits": _summary_by_parameters("sorted(members)"), "rules": ["R4"]}]
+BENIGN += [{"name": "index-printed-through-format", "edits": [
+    {"file": MACROS, "old": "#define IDX_{{ spec.alias }} {{ loop.index0 }}", "new": '#define IDX_{{ spec.alias }} {{ "%d" | format(loop.length - loop.revindex) }}'},
+    {"file": PYIDX, "old": "IDX_{{ spec.alias }} = {{ loop.index0 }}", "new": 'IDX_{{ spec.alias }} = {{ "{}".format(loop.index0) }}'}]}]
+MUTANTS += [{"name": "index-printed-through-format-one-based", "file": MACROS, "old": "#define IDX_{{ spec.alias }} {{ loop.index0 }}", "new": '#define IDX_{{ spec.alias }} {{ "%d" | format(loop.index) }}', "rules": ["R4"]}]
